@@ -22,6 +22,8 @@ fn main() {
         "w_strace" => vh::w_strace::main(rest),
         "w_model" => vh::w_model::main(rest),
         "w_chain" => vh::w_chain::main(rest),
+        "w_live" => vh::w_live::main(rest),
+        "w_freeze" => vh::w_freeze::main(rest),
         "w_halflock" => vh::w_halflock::main(rest),
         _ => {
             eprintln!("unknown workload {:?}", w);
